@@ -15,6 +15,7 @@ import Bpp.LifecycleThm
 import Bpp.ScalarsThm
 import Bpp.BatchScalarsThm
 import Bpp.GenTableThm
+import Bpp.RangeSound
 /-! # Property theorems
 
 Only the property statements live here, one block per C-id, each about the **executable** model functions of
@@ -118,6 +119,84 @@ theorem C02_response_d1_unique (I : RangeInst F M) (π : ProofM F M) (d1' : ℕ 
   rw [specResidual_bridge] at h h'
   rw [dot_eq, dot_eq]
   exact response_d1_unique I π d1' y z es e h h'
+
+/-- **C02 (special soundness of the zk-WIP argument).** From a tree of accepting transcripts — at every folding
+    round one `(L, R)` and four non-zero challenges with distinct squares, at the leaves one `(A1, B)` and five
+    distinct challenges whose responses satisfy the final check of `wipAccepts` — a witness of the
+    weighted-inner-product relation is extracted, provided the generators satisfy no non-trivial linear relation
+    (`Indep`: the discrete-logarithm assumption in algebraic form). Conversely every statement with a witness has
+    such a tree. -/
+theorem C02_wip_special_sound (y : F) (hy : y ≠ 0) (t : ℕ) (g : M) (Gb : ℕ → M) (S4 S5 : Finset F)
+    (h4 : 4 ≤ S4.card) (h40 : ∀ e ∈ S4, e ≠ 0) (hinj : Set.InjOn (fun e : F => e^2) S4) (h5 : 5 ≤ S5.card)
+    (κ : ℕ) (G H : ℕ → M) (P : M) (hI : Indep (F := F) (2^κ) t G H g Gb) :
+    TreeAcc y t g Gb κ G H P ↔ ∃ a b α : ℕ → F, P = Pcom y (2^κ) t a b G H g α Gb :=
+  wip_tree_iff y hy t g Gb S4 S5 h4 h40 hinj h5 κ G H P hI
+
+/-- every branch of such a tree is a transcript the recursive reference verifier accepts (the relation of
+    `C02_residual_iff_recursive`, hence of the coded verifier by `C02_verdict_iff`) -/
+theorem C02_tree_branch_accepts (y : F) (t : ℕ) (g : M) (Gb : ℕ → M) (κ : ℕ) (G H : ℕ → M) (P : M)
+    (hT : TreeAcc y t g Gb κ G H P) :
+    ∃ (es : List F) (Ls Rs : List M) (e : F) (A1 B : M) (r1 s1 : F) (d1 : ℕ → F),
+      es.length = κ ∧ wipAccepts y t g Gb e A1 B r1 s1 d1 es Ls Rs G H P :=
+  TreeAcc.path y t g Gb κ G H P hT
+
+/-- **C02 (soundness of the range reduction).** If `Â(y, z)` has a weighted-inner-product witness for `N+1`
+    non-zero `y` and `2m+2` values of `z` each, then `A` commits to bits `aL`, to `aL − 1`, and the `j`-th block of
+    bits is the binary expansion of `v_j − p_j`, for whatever opening `(v_j, r_j)` the commitment `V_j` has. -/
+theorem C02_range_sound (I : RangeInst F M) (hn : 0 < I.n)
+    (hI : Indep (F := F) (I.n * I.m) I.t I.G I.H I.hb I.Gb)
+    (v : ℕ → F) (r : ℕ → ℕ → F) (hV : ∀ j < I.m, I.V j = v j • I.hb + dot I.t (r j) I.Gb)
+    (A : M) (SY : Finset F) (SZ : F → Finset F)
+    (hY0 : ∀ y ∈ SY, y ≠ 0) (hYc : I.n * I.m + 1 ≤ SY.card) (hZc : ∀ y ∈ SY, 2 * I.m + 2 ≤ (SZ y).card)
+    (hW : ∀ y ∈ SY, ∀ z ∈ SZ y, ∃ a b α : ℕ → F,
+      Ahat I y z A = Pcom y (I.n * I.m) I.t a b I.G I.H I.hb α I.Gb) :
+    ∃ aL α : ℕ → F,
+      A = dot (I.n * I.m) aL I.G + dot (I.n * I.m) (fun i => aL i - 1) I.H + dot I.t α I.Gb ∧
+      (∀ i < I.n * I.m, aL i * (aL i - 1) = 0) ∧
+      (∀ j < I.m, ∑ i ∈ range I.n, aL (j * I.n + i) * 2^i = v j - I.p j) :=
+  range_sound I hn hI v r hV A SY SZ hY0 hYc hZc hW
+
+/-- **C02 / C07 (no proof for a value outside the range).** A tree of accepting transcripts of the whole proof
+    (`N+1` non-zero `y`, `2m+2` values `z` each, the zk-WIP tree below each) for commitments opening to natural
+    numbers `v_j` under promises `p_j` exists only if `p_j ≤ v_j` and `v_j − p_j < 2^n` — in a field of
+    characteristic `q > v_j, p_j + 2^n`, with independent generators. -/
+theorem C02_knowledge_sound (I : RangeInst F M) (hn : 0 < I.n) (κ : ℕ) (hN : I.n * I.m = 2^κ)
+    (hI : Indep (F := F) (I.n * I.m) I.t I.G I.H I.hb I.Gb)
+    (q : ℕ) [CharP F q] (vn pn : ℕ → ℕ) (r : ℕ → ℕ → F)
+    (hvq : ∀ j < I.m, vn j < q) (hpq : ∀ j < I.m, pn j + 2^I.n ≤ q)
+    (hp : ∀ j < I.m, I.p j = (pn j : F))
+    (hV : ∀ j < I.m, I.V j = (vn j : F) • I.hb + dot I.t (r j) I.Gb)
+    (A : M) (SY : Finset F) (SZ : F → Finset F)
+    (hY0 : ∀ y ∈ SY, y ≠ 0) (hYc : I.n * I.m + 1 ≤ SY.card) (hZc : ∀ y ∈ SY, 2 * I.m + 2 ≤ (SZ y).card)
+    (hT : ∀ y ∈ SY, ∀ z ∈ SZ y, TreeAcc y I.t I.hb I.Gb κ I.G I.H (Ahat I y z A)) :
+    ∀ j < I.m, pn j ≤ vn j ∧ vn j - pn j < 2^I.n :=
+  range_proof_sound I hn κ hN hI q vn pn r hvq hpq hp hV A SY SZ hY0 hYc hZc hT
+
+/-- non-vacuity of `C02_knowledge_sound`: a valid witness yields such a tree at every challenge pair -/
+theorem C02_tree_satisfiable (I : RangeInst F M) (hn : 0 < I.n) (κ : ℕ) (hN : I.n * I.m = 2^κ)
+    (y z : F) (hy : y ≠ 0) (S4 S5 : Finset F)
+    (h4 : 4 ≤ S4.card) (h40 : ∀ e ∈ S4, e ≠ 0) (hinj : Set.InjOn (fun e : F => e^2) S4) (h5 : 5 ≤ S5.card)
+    (aL : ℕ → F) (α : ℕ → F) (v : ℕ → F) (r : ℕ → ℕ → F)
+    (hbit : ∀ i < I.n * I.m, aL i * (aL i - 1) = 0)
+    (hval : ∀ j < I.m, ∑ i ∈ range I.n, aL (j * I.n + i) * 2^i = v j - I.p j)
+    (hV : ∀ j < I.m, I.V j = v j • I.hb + dot I.t (r j) I.Gb) :
+    TreeAcc y I.t I.hb I.Gb κ I.G I.H
+      (Ahat I y z (dot (I.n * I.m) aL I.G + dot (I.n * I.m) (fun i => aL i - 1) I.H + dot I.t α I.Gb)) :=
+  range_tree_complete I hn κ hN y z hy S4 S5 h4 h40 hinj h5 aL α v r hbit hval hV
+
+/-- non-vacuity of `Indep`: coordinate vectors, for every length and degree -/
+theorem C02_indep_satisfiable (N t : ℕ) :
+    Indep (F := F) (M := ℕ → F) N t (fun i => Pi.single (4*i) 1) (fun i => Pi.single (4*i+1) 1)
+      (Pi.single 3 1) (fun k => Pi.single (4*k+2) 1) :=
+  indep_example N t
+
+/-- four non-zero rationals with distinct squares, five distinct rationals -/
+example : 4 ≤ ({1, 2, 3, 4} : Finset ℚ).card ∧ (∀ e ∈ ({1, 2, 3, 4} : Finset ℚ), e ≠ 0) ∧
+    Set.InjOn (fun e : ℚ => e^2) ({1, 2, 3, 4} : Finset ℚ) ∧ 5 ≤ ({0, 1, 2, 3, 4} : Finset ℚ).card := by
+  refine ⟨by decide, by decide, ?_, by decide⟩
+  intro a ha b hb h
+  simp only [Finset.coe_insert, Finset.coe_singleton, Set.mem_insert_iff, Set.mem_singleton_iff] at ha hb
+  rcases ha with rfl | rfl | rfl | rfl <;> rcases hb with rfl | rfl | rfl | rfl <;> first | rfl | (exfalso; norm_num at h)
 
 /-- non-vacuity of C02's hypotheses: one bit, two commitments, one round -/
 example : (1 : ℕ) * 2 = 2 ^ [(3 : ℚ)].length ∧ (2 : ℕ) = 2 ^ 1 ∧ (5 : ℚ) ≠ 0 ∧ (5 : ℚ) ≠ 1 ∧ ∀ x ∈ [(3 : ℚ)], x ≠ 0 := by
